@@ -89,8 +89,9 @@ Theorem C18_conns_le_target : forall T mf evs,
   0 <= T -> ConnMgr.zlen (conns (crun (cinit T mf) evs)) <= T.
 Proof. exact conns_le_target. Qed.
 
-(* every slot is a connection, a request in flight, an armed retry timer, or a request that a caller
-   of the public Disconnect canceled while it was in flight.
+(* every slot is a connection, a request in flight, an armed retry timer, or was given up on behalf of
+   a caller of the public API ([canceled]: request canceled in flight by Disconnect/Remove, connection
+   removed by Remove).
    History: before fix 7026b86 the sum also contained the number of address bans - at the 25th failure
    of an address registerFailedConnectionTo banned it and returned without a successor request, and
    C18_ban_loses_slot refuted "quiescent => target established". *)
@@ -101,7 +102,7 @@ Theorem C18_slot_conservation : forall T mf evs,
 Proof. exact slot_conservation. Qed.
 
 (* on the server's alphabet (Disconnect only for ids learnt through OnConnection, never for a request
-   in flight) nothing is ever canceled *)
+   in flight; no Remove) nothing is ever given up *)
 Theorem C18_no_cancel : forall T mf evs,
   server_alphabet (cinit T mf) evs -> canceled (crun (cinit T mf) evs) = 0.
 Proof. exact no_cancel. Qed.
@@ -121,7 +122,8 @@ Theorem C18_still_trying : forall T mf evs,
   ConnMgr.zlen (conns s) < T -> tasks s <> [] \/ 0 < timers s.
 Proof. exact still_trying. Qed.
 
-(* for arbitrary callers of Disconnect: exactly the canceled requests are missing *)
+(* for arbitrary callers of the public Disconnect / Remove: exactly the slots given up on their behalf
+   (requests canceled in flight, connections removed without retry) are missing *)
 Theorem C18_quiescent_full_any : forall T mf evs,
   0 <= T ->
   let s := crun (cinit T mf) evs in
